@@ -73,7 +73,7 @@ def fam_transport(T=3, thorough=False):
         tr = F.transport(T, 'n1', 'n2', lo, hi, eff=eff, cost=cost, costts=costts_v, ws=win[0], we=win[1])
         a = slack(T, 'n1', [1, 4, 2][:T], lo=-4, hi=4)
         b = slack(T, 'n2', [3, 1, 5][:T], lo=-4, hi=4)
-        out.append(F.make_cfg(ids(), T, [a, tr, b]))
+        out.append(F.make_cfg(ids(), T, [a, tr, b], dt=[2] * T if (cost and not isinstance(costts, list)) else None))
     if thorough:
         for sense, (s, e) in itertools.product(('min', 'max'), [(0, 3), (-1, 2), (2, 5)]):
             tr = F.transport(T, 'n1', 'n2', 0, 2, eff=(1, 2), cost=1, takes=[dict(s=s, e=e, vol=3, sense=sense)])
@@ -285,13 +285,16 @@ def fam_take_placement(T=3):
     H = 2 * T
     pl = dict(before=(-4, 0), straddle_start=(-2, 2), inside=(2, 4), straddle_end=(H - 2, H + 4), after=(H, H + 4), covering=(-2, H + 2),
               unaligned=(1, 3), far_after=(H + 2, H + 6))
-    for (pname, (s, e)), sense, kind in itertools.product(pl.items(), ('min', 'max'), ('contract', 'transport')):
+    # the asset's own window: the horizon itself, reaching beyond it on both sides (a long-running contract optimised over a
+    # shorter horizon), or cutting into it
+    wins = [(1, T + 1), (-2, T + 4), (2, T + 3)]
+    for (pname, (s, e)), sense, kind, (ws, we) in itertools.product(pl.items(), ('min', 'max'), ('contract', 'transport'), wins):
         tk = [dict(s=s, e=e, vol=4, sense=sense)]
         if kind == 'contract':
-            x = F.contract(T, 'n1', 0, 2, [4, 1, 3][:T] if sense == 'min' else [1, 1, 1][:T], takes=tk, force_contract=True)
+            x = F.contract(T, 'n1', 0, 2, [4, 1, 3][:T] if sense == 'min' else [1, 1, 1][:T], takes=tk, force_contract=True, ws=ws, we=we)
             rest = [slack(T, 'n1', [2, 3, 2][:T], lo=-4, hi=0)]
         else:
-            x = F.transport(T, 'n1', 'n2', 0, 2, cost=3 if sense == 'min' else 0, takes=tk)
+            x = F.transport(T, 'n1', 'n2', 0, 2, cost=3 if sense == 'min' else 0, takes=tk, ws=ws, we=we)
             rest = [slack(T, 'n1', [1, 1, 1][:T], lo=-4, hi=4), slack(T, 'n2', [2, 3, 2][:T] if sense == 'max' else [1, 1, 1], lo=-4, hi=4)]
         out.append(F.make_cfg(ids(), T, rest + [x], dt=dt, placement=pname, element='take_' + kind, element_index=len(rest)))
     return out
@@ -356,6 +359,21 @@ def fam_split_discount():
 
 
 # ---------------------------------------------------------------- time bookkeeping (C12)
+def fam_units_transport(T=3):
+    """flow limits of a transport in both directions on grids whose step is not one main time unit (dt = 2 ticks) and on DST days"""
+    ids = Ids()
+    out = []
+    for (lo, hi), dt in itertools.product([(1, 2), (-2, -1), (-2, 0), (0, 2)], ([2] * T, [1] * T)):
+        a = [slack(T, 'n1', [1, 4, 2][:T], lo=-5, hi=5), F.transport(T, 'n1', 'n2', lo, hi, eff=(1, 2), cost=1), slack(T, 'n2', [3, 1, 5][:T], lo=-5, hi=5)]
+        out.append(F.make_cfg(ids(), T, a, dt=dt))
+    for dt in ([24, 23, 24], [24, 25, 24]):
+        a = [slack(T, 'n1', [1, 4, 2][:T], lo=-2, hi=2, q=24), F.transport(T, 'n1', 'n2', -1, 1, cost=0, q=24), slack(T, 'n2', [3, 1, 5][:T], lo=-2, hi=2, q=24)]
+        out.append(F.make_cfg(ids(), T, a, dt=dt))
+        a = [slack(T, 'n1', [1, 4, 2][:T], lo=-2, hi=2, q=1), F.transport(T, 'n1', 'n2', 1, 1, cost=1, q=1), slack(T, 'n2', [3, 1, 5][:T], lo=-2, hi=2, q=1)]
+        out.append(F.make_cfg(ids(), T, a, dt=dt))
+    return out
+
+
 def fam_units(T=3):
     """per-time quantities everywhere: capacities, inflow, holding cost (dt = 1 tick = 1h; realised in several main time units)"""
     ids = Ids()
@@ -437,9 +455,13 @@ def fam_scaled(T=3, thorough=False):
     ids = Ids()
     out = []
     pr = [1, 5, 2][:T]
-    for (s, norm, fix), win in itertools.product([(1, 1, 0), (2, 1, 1), (3, 2, 2), (1, 2, 1)], [(1, T + 1), (2, T + 1)]):
+    # (window of the base asset, own window of the scaled asset): equal, wrapper narrower, base narrower, wrapper reaching beyond the horizon
+    wins = [((1, T + 1), (1, T + 1)), ((2, T + 1), (2, T + 1)), ((1, T + 1), (2, T)), ((2, T + 1), (1, T + 1)), ((1, T + 1), (-1, T + 3))]
+    for (s, norm, fix), (win, fwin) in itertools.product([(1, 1, 0), (2, 1, 1), (3, 2, 2), (1, 2, 1)], wins):
+        if fix == 0 and fwin != win:
+            continue
         m = s / norm
-        sc = dict(scale=(s, norm, fix), fixrate=s * fix, ws=win[0], we=win[1])
+        sc = dict(scale=(s, norm, fix), fixrate=s * fix, ws=win[0], we=win[1], fws=fwin[0], fwe=fwin[1])
 
         def cap(v):
             x = v * m
@@ -465,7 +487,7 @@ def fam_free_scale(T=3):
     out = []
     for g, (fix, pr) in enumerate(itertools.product((0, 1, 3), ([1, 1, 1], [1, 5, 2]))):
         for s in (1, 2, 3):
-            x = F.contract(T, 'n1', 0, 2 * s, pr, scale=(s, 1, fix), fixrate=s * fix, scale_range=(1, 3))
+            x = F.contract(T, 'n1', 0, 2 * s, pr, scale=(s, 1, fix), fixrate=s * fix, scale_range=(1, 3), fws=1, fwe=T + 1)
             out.append(F.make_cfg(ids(), T, [slack(T, 'n1', 3, lo=-8, hi=8), x], group=g, variant='free_scale', scale=(s, 1, fix)))
     return out
 
